@@ -163,6 +163,10 @@ func (h *Hist) pickAny() *Node {
 	if len(c) == 0 {
 		return nil
 	}
+	if len(c) > 40 && h.d.Draw("pick-root", 3) == 0 {
+		// large heaps (huge / deep size classes): a third of the picks go to the oldest containers, the roots
+		return c[h.d.Draw("pick-node", 4)]
+	}
 	return c[h.d.Draw("pick-node", len(c))]
 }
 
@@ -684,7 +688,43 @@ func opDelete(h *Hist) {
 	mode := h.d.Draw("delete-mode", 6)
 	var idxs []int
 	valid := true
+	multiInvalid := false
+	if h.faults() && cnt >= 1 && h.d.Draw("delete-multi-invalid", 8) == 0 {
+		mode = 99
+	}
 	switch {
+	case mode == 99:
+		// several distinct indices, at least one outside 0..n-1: the call must panic (what is left of the list is not specified)
+		k := 2 + h.d.Draw("delete-k", 3)
+		seen := map[int]bool{}
+		// one way to be wrong that looks right: the tail n-k+1..n, i.e. the last indices shifted up by one
+		if h.d.Draw("delete-shifted-tail", 2) == 0 && k <= cnt+1 {
+			for i := 0; i < k; i++ {
+				idxs = append(idxs, cnt-k+1+i)
+			}
+		} else {
+			for len(idxs) < k {
+				i := h.d.Draw("delete-any", cnt+6) - 2
+				if !seen[i] {
+					seen[i] = true
+					idxs = append(idxs, i)
+				}
+			}
+		}
+		for _, i := range idxs {
+			if i < 0 || i >= cnt {
+				multiInvalid = true
+			}
+		}
+		if !multiInvalid {
+			idxs = append(idxs, cnt)
+			multiInvalid = true
+		}
+		// unsorted
+		if len(idxs) > 1 && h.d.Draw("delete-swap", 2) == 0 {
+			idxs[0], idxs[len(idxs)-1] = idxs[len(idxs)-1], idxs[0]
+		}
+		valid = false
 	case mode == 0:
 		// no index: nothing happens
 	case mode <= 3 || cnt < 2:
@@ -716,6 +756,15 @@ func opDelete(h *Hist) {
 	p, msg := h.call(func() { ret = l.Delete(arg...) })
 	h.touch(n)
 	h.tracef("%s.Delete(%v) valid=%v panicked=%v", n.Name, idxs, valid, p)
+	if multiInvalid {
+		h.counters["fault:index-out-of-domain"]++
+		h.counters["probe:delete-multi-with-invalid-index"]++
+		if h.mustPanic(p, fmt.Sprintf("Delete(%v) with an index outside 0..%d", idxs, cnt-1)) {
+			h.adopt(n) // which of the valid indices were removed before the panic is not specified
+			h.heapCheck()
+		}
+		return
+	}
 	if !valid {
 		h.counters["fault:index-out-of-domain"]++
 		if h.mustPanic(p, fmt.Sprintf("index %v outside 0..%d", idxs, cnt-1)) {
@@ -910,8 +959,15 @@ func opGet(h *Hist) {
 	var key string
 	if n.IsObj {
 		key = h.genKey(n)
-		if h.d.Draw("key-missing", 5) == 0 {
+		switch h.d.Draw("key-missing", 8) {
+		case 0:
 			key = "missing-key"
+		case 1, 2:
+			// an absent key that would resolve if it were (mis)read as a tree-form path or after normalisation
+			if k := h.trickyMissingKey(n); k != "" {
+				key = k
+				h.counters["probe:absent-key-that-resolves-as-a-path"]++
+			}
 		}
 		mv, exists = n.Fields[key]
 		where = strconv.Quote(key)
@@ -1548,8 +1604,8 @@ func opForEachVariants(h *Hist) {
 	}
 	h.curOwner = h.ownerOf(n)
 	h.checkRet(ret, n)
-	// typed iteration hands back the identical stored derived values
-	if name == "ForEachObject" || name == "ForEachList" {
+	// iteration hands the callback the identical stored containers (derived values included)
+	if name == "ForEachObject" || name == "ForEachList" || name == "ForEach" || name == "ForEachValue" || name == "ForEachAsync" {
 		want := map[uintptr]int{}
 		var vals []MVal
 		if n.IsObj {
@@ -1560,8 +1616,9 @@ func opForEachVariants(h *Hist) {
 			vals = n.Elems
 		}
 		derived := false
+		untyped := name == "ForEach" || name == "ForEachValue" || name == "ForEachAsync"
 		for _, v := range vals {
-			if (name == "ForEachObject" && v.K == KObj) || (name == "ForEachList" && v.K == KList) {
+			if (name == "ForEachObject" && v.K == KObj) || (name == "ForEachList" && v.K == KList) || (untyped && v.isRef()) {
 				want[ptrOf(v.N.Impl)]++
 				if v.N.Derived > 0 {
 					derived = true
@@ -1569,11 +1626,16 @@ func opForEachVariants(h *Hist) {
 			}
 		}
 		for _, s := range seen {
-			want[ptrOf(s)]--
+			if p := ptrOf(s); p != 0 {
+				want[p]--
+			}
 		}
 		for _, c := range want {
 			if c != 0 {
 				own := []string{"C14"}
+				if name == "ForEachAsync" {
+					own = []string{"C15"}
+				}
 				if derived {
 					own = []string{"C19"}
 				}
@@ -1795,7 +1857,11 @@ func opPluck(h *Hist) {
 			ks := n.keys()
 			keys = append(keys, ks[h.d.Draw("key-which", len(ks))])
 		} else {
-			keys = append(keys, "missing-key")
+			k := "missing-key"
+			if t := h.trickyMissingKey(n); t != "" && h.d.Draw("pluck-tricky", 2) == 0 {
+				k = t
+			}
+			keys = append(keys, k)
 			valid = false
 		}
 	}
@@ -2014,7 +2080,7 @@ func opClone(h *Hist) {
 	if n == nil || !h.plain(n) || h.hasDerivedBelow(n) {
 		return
 	}
-	if len(h.nodes)+len(reach(n)) > h.maxNodes+8 {
+	if len(h.nodes)+len(reach(n)) > h.maxNodes+8 && !(h.sizeClass >= 2 && len(h.nodes) < 1500) {
 		return
 	}
 	h.begin("Clone", "C08")
@@ -2102,4 +2168,130 @@ func occurrences(n *Node) []*Node {
 		}
 	}
 	return out
+}
+
+// trickyMissingKey returns a key that n does not have but that a sloppy implementation might resolve:
+// "K1.K2" / "K1#i" where K1 holds a container that has K2 / index i, a key differing from an existing one
+// only by case or surrounding space, or the empty key. "" if nothing suitable exists.
+func (h *Hist) trickyMissingKey(n *Node) string {
+	var cands []string
+	for _, k := range n.keys() {
+		v := n.Fields[k]
+		if v.K == KObj {
+			for _, k2 := range v.N.keys() {
+				cands = append(cands, k+"."+k2)
+			}
+		}
+		if v.K == KList && len(v.N.Elems) > 0 {
+			cands = append(cands, k+"#0", k+"#"+strconv.Itoa(len(v.N.Elems)-1))
+		}
+		cands = append(cands, k+" ", " "+k, strings.ToUpper(k), k+"\x00")
+	}
+	cands = append(cands, "")
+	var absent []string
+	for _, c := range cands {
+		if _, ok := n.Fields[c]; !ok {
+			absent = append(absent, c)
+		}
+	}
+	if len(absent) == 0 {
+		return ""
+	}
+	// prefer the path-like candidates
+	var paths []string
+	for _, c := range absent {
+		if strings.ContainsAny(c, ".#") {
+			paths = append(paths, c)
+		}
+	}
+	if len(paths) > 0 && h.d.Draw("tricky-path", 4) > 0 {
+		return paths[h.d.Draw("tricky-which", len(paths))]
+	}
+	return absent[h.d.Draw("tricky-which", len(absent))]
+}
+
+var hugeSizes = []int{63, 64, 65, 100, 127, 128, 129, 255, 256, 257, 300, 511, 513, 1000, 1025}
+
+// opNewHuge builds a list far larger than the usual bound, with a few nested containers at the
+// beginning, in the middle and in the tail: implementations that switch strategy at a size threshold
+// (chunked copies, batch workers) behave differently only there.
+func opNewHuge(h *Hist) {
+	h.begin("NewList", "C05")
+	size := hugeSizes[h.d.Draw("huge-size", len(hugeSizes))]
+	n := h.newNode(false, "NewList")
+	n.Pend = &pending{mode: pendFresh, group: h.group}
+	gvs := make([]any, size)
+	nested := map[int]bool{0: h.d.Draw("huge-nest-first", 2) == 0, size / 2: true, size - 1: true, size - 1 - h.d.Draw("huge-nest-tail", 40): true, h.d.Draw("huge-nest-any", size): true}
+	for i := 0; i < size; i++ {
+		var mv MVal
+		if nested[i] {
+			c := h.newPending(i%2 == 0, "NewList", pendFresh, nil)
+			if c.IsObj {
+				c.Fields["k"] = mInt(i)
+				gvs[i] = map[string]any{"k": i}
+			} else {
+				c.Elems = []MVal{mInt(i)}
+				gvs[i] = []any{i}
+			}
+			mv = mRef(c)
+		} else {
+			switch i % 3 {
+			case 0:
+				mv = mInt(i)
+			case 1:
+				mv = mString(stringPool[i%len(stringPool)])
+			default:
+				mv = mFloat(float64(i) + 0.5)
+			}
+			gvs[i] = mv.goValue()
+		}
+		n.Elems = append(n.Elems, mv)
+	}
+	var l at.List
+	p, msg := h.call(func() { l = at.NewList(gvs...) })
+	if !h.mustNotPanic(p, msg) {
+		return
+	}
+	h.counters["probe:huge-list"]++
+	if h.bindResult(n, l, h.curOwner) {
+		h.tracef("%s := NewList(%d elements, nested containers at %d positions)", n.Name, size, len(nested))
+	}
+}
+
+var deepDepths = []int{9, 17, 33, 63, 64, 65, 66, 70, 100, 129, 200}
+
+// opNewDeep builds a chain of alternating lists and objects nested far deeper than histories reach by themselves.
+func opNewDeep(h *Hist) {
+	h.begin("NewList", "C05")
+	depth := deepDepths[h.d.Draw("deep-depth", len(deepDepths))]
+	var inner any = []any{"leaf"}
+	leaf := h.newPending(false, "NewList", pendFresh, nil)
+	leaf.Elems = []MVal{mString("leaf")}
+	cur := leaf
+	for i := 0; i < depth; i++ {
+		var nn *Node
+		if i%2 == 0 {
+			nn = h.newPending(true, "NewList", pendFresh, nil)
+			nn.Fields["d"] = mRef(cur)
+			nn.Fields["i"] = mInt(i)
+			inner = map[string]any{"d": inner, "i": i}
+		} else {
+			nn = h.newPending(false, "NewList", pendFresh, nil)
+			nn.Elems = []MVal{mInt(i), mRef(cur)}
+			inner = []any{i, inner}
+		}
+		cur = nn
+	}
+	root := h.newNode(false, "NewList")
+	root.Pend = &pending{mode: pendFresh, group: h.group}
+	root.Elems = []MVal{mRef(cur)}
+	var l at.List
+	p, msg := h.call(func() { l = at.NewList(inner) })
+	if !h.mustNotPanic(p, msg) {
+		return
+	}
+	h.counters["probe:deep-chain"]++
+	if h.bindResult(root, l, h.curOwner) {
+		h.tracef("%s := NewList(chain of %d nested containers)", root.Name, depth+1)
+	}
 }
